@@ -1,4 +1,5 @@
 """C11 — HashTable is a dictionary over a fixed set of integer keys (histories)."""
+import vlib
 from harness import fam_hash, fam_hash2
 TRUSTED = fam_hash.TRUSTED
 ASSUME = ["keys are unique (the constructor's precondition) and |key| <= 2**62"]
@@ -6,3 +7,7 @@ RULE = fam_hash2.RULE2 + " || " + "HashTable histories; " + fam_hash.RULE
 def run(R, tier, rng):
     fam_hash2.run_family2(R, tier, rng, False)
     fam_hash.run_family(R, tier, rng, counter=False)
+
+
+def translator_tie():
+    return vlib.translator_tie(["hash"])
